@@ -42,7 +42,7 @@ def eval_types(g):
         g.type(RULES + 'exprs.rs', t, derive=None, extra_subst=sub)
 
 
-def eval_common(g):
+def eval_common(g, with_scope=False):
     g.raw('prelude_common.rs')
     g.raw('prelude_eval.rs')
     eval_types(g)
@@ -60,8 +60,12 @@ def eval_common(g):
         g.listing.append('### type operators::%s (%s)\n%s\n%s\n' % (t, OPS, '\n'.join('  - ' + l for l in log), X.listing(orig, new, t)))
     pre = open(os.path.join(VERUS_DIR, 'prelude_binop.rs')).read().replace('    // ---- OPERATOR_TYPES ----', '\n'.join(optypes))
     g.text(pre, 'prelude_binop.rs + operators.rs types')
-    g.raw('spec_eval.rs')
+    spec = open(os.path.join(VERUS_DIR, 'spec_eval.rs')).read()
+    spec = spec.replace('/*EXTRA_BROADCAST*/', ', scope_model::axiom_value_scope_resolved' if with_scope else '')
+    g.text(spec, 'spec_eval.rs')
     g.trait('EvalContext', [(RULES + 'mod.rs', 'RecordTracer'), (RULES + 'mod.rs', 'EvalContext')], 'trait_EvalContext.spec')
+    if with_scope:
+        g.raw('prelude_scope.rs')
 
 
 def g_eval(repo):
@@ -79,11 +83,25 @@ def g_eval(repo):
     g.fn('U-binop', E, 'binary_operation', spec='binary_operation_unit.spec', props=['C01', 'C02', 'C03', 'C08'])
     g.fn(None, RULES + 'eval_context.rs', 'resolve_function', spec='resolve_function.spec', stub=True)
     g.fn('U-unary-op', RULES + 'values.rs', 'is_unary', impl=r'impl CmpOperator', spec='is_unary.spec', wrap_impl='impl CmpOperator', props=['C01', 'C03'])
-    g.fn('U-gac', E, 'eval_guard_access_clause', spec='eval_guard_access_clause.spec', props=['C01', 'C02', 'C03', 'C08'])
-    g.fn('U-named', E, 'eval_guard_named_clause', spec='eval_guard_named_clause.spec', props=['C01', 'C02', 'C03', 'C08'])
-    g.fn('U-when', E, 'eval_when_condition_block', spec='eval_when_condition_block.spec', props=['C01', 'C02', 'C08'])
+    g.fn('U-gac', E, 'eval_guard_access_clause', spec='eval_guard_access_clause.spec', props=['C01', 'C02', 'C03', 'C08'], assumed_as=['clause_stub.spec'])
+    g.fn('U-named', E, 'eval_guard_named_clause', spec='eval_guard_named_clause.spec', props=['C01', 'C02', 'C03', 'C08'], assumed_as=['clause_stub.spec'])
+    g.fn('U-when', E, 'eval_when_condition_block', spec='eval_when_condition_block.spec', props=['C01', 'C02', 'C08'], assumed_as=['clause_stub.spec'])
     g.fn('U-rule', E, 'eval_rule', spec='eval_rule.spec', props=['C01', 'C02', 'C04', 'C08'])
     g.fn('U-file', E, 'eval_rules_file', spec='eval_rules_file.spec', props=['C01', 'C02', 'C04', 'C08', 'C09'])
+    return g
+
+
+def g_eval_blocks(repo):
+    """query blocks and type blocks: need the assumed ValueScope model (R12)"""
+    g = GroupBuild('eval_blocks', repo)
+    eval_common(g, with_scope=True)
+    E = RULES + 'eval.rs'
+    g.fn(None, E, 'eval_conjunction_clauses', spec='eval_conjunction_clauses.spec', stub=True)
+    g.fn(None, E, 'eval_general_block_clause', spec='eval_general_block_clause.spec', stub=True)
+    for f in ('eval_when_clause', 'eval_rule_clause', 'eval_guard_clause'):
+        g.fn(None, E, f, spec='clause_stub.spec', stub=True)
+    g.fn('U-gblock', E, 'eval_guard_block_clause', spec='eval_guard_block_clause.spec', props=['C01', 'C02', 'C08'], assumed_as=['clause_stub.spec'])
+    g.fn('U-tblock', E, 'eval_type_block_clause', spec='eval_type_block_clause.spec', props=['C01', 'C02', 'C08'], assumed_as=['clause_stub.spec'])
     return g
 
 
@@ -94,9 +112,9 @@ def g_eval_disp(repo):
     for f in ('eval_guard_access_clause', 'eval_guard_named_clause', 'eval_guard_block_clause', 'eval_parameterized_rule_call',
               'eval_type_block_clause', 'eval_when_condition_block'):
         g.fn(None, E, f, spec='clause_stub.spec', stub=True)
-    g.fn('U-disp-when', E, 'eval_when_clause', spec='dispatch3.spec', props=['C02', 'C08'])
-    g.fn('U-disp-guard', E, 'eval_guard_clause', spec='dispatch.spec', props=['C02', 'C08'])
-    g.fn('U-disp-rule', E, 'eval_rule_clause', spec='dispatch2.spec', props=['C02', 'C08'])
+    g.fn('U-disp-when', E, 'eval_when_clause', spec='dispatch3.spec', props=['C02', 'C08'], assumed_as=['clause_stub.spec'])
+    g.fn('U-disp-guard', E, 'eval_guard_clause', spec='dispatch.spec', props=['C02', 'C08'], assumed_as=['clause_stub.spec'])
+    g.fn('U-disp-rule', E, 'eval_rule_clause', spec='dispatch2.spec', props=['C02', 'C08'], assumed_as=['clause_stub.spec'])
     return g
 
 
@@ -153,4 +171,4 @@ def g_report(repo):
     return g
 
 
-GROUPS = {'report': g_report, 'merge': g_merge, 'status': g_status, 'exit': g_exit, 'eval': g_eval, 'eval_disp': g_eval_disp}
+GROUPS = {'eval_blocks': g_eval_blocks, 'report': g_report, 'merge': g_merge, 'status': g_status, 'exit': g_exit, 'eval': g_eval, 'eval_disp': g_eval_disp}
